@@ -760,6 +760,10 @@ where
         self.topic_alias_send = None;
         self.topic_alias_recv = None;
 
+        // The peer's Receive Maximum belongs to the closed connection
+        self.publish_send_max = None;
+        self.publish_send_count = 0;
+
         // Drop a partially received frame: it belongs to the transport that was just closed
         self.packet_builder.reset();
 
